@@ -51,35 +51,50 @@ func cmdRace(args []string) {
 			fmt.Fprintf(w, "%s\tcerr\n", c.ID)
 			continue
 		}
-		wantSel, wantEval := evalOne(fresh, true), evalOne(fresh2(c.Expr), false)
+		// The expected results are computed sequentially *after* the concurrent phase, so that the first
+		// requests for the expression's run-time regexp patterns (cache misses that insert) come from the
+		// goroutines themselves, overlapping with each other's lookups.
+		_ = fresh
 		shared, _ := xpath.Compile(c.Expr)
 		var wg sync.WaitGroup
-		bad := make(chan string, gor*4)
+		type obs struct{ what, got string }
+		var mu sync.Mutex
+		var seen []obs
+		rec := func(what, got string) {
+			mu.Lock()
+			seen = append(seen, obs{what, got})
+			mu.Unlock()
+		}
 		for i := 0; i < gor; i++ {
 			wg.Add(1)
 			go func(i int) {
 				defer wg.Done()
 				for rep := 0; rep < 3; rep++ {
 					if i%2 == 0 {
-						if got := evalOne(shared, true); got != wantSel {
-							bad <- "select:" + got + "!=" + wantSel
-						}
+						rec("select", evalOne(shared, true))
 					} else {
-						if got := evalOne(shared, false); got != wantEval {
-							bad <- "evaluate:" + got + "!=" + wantEval
-						}
+						rec("evaluate", evalOne(shared, false))
 					}
 					if i%4 == 3 {
 						if e2, err := xpath.Compile(c.Expr); err == nil {
-							if got := evalOne(e2, true); got != wantSel {
-								bad <- "compile:" + got + "!=" + wantSel
-							}
+							rec("compile", evalOne(e2, true))
 						}
 					}
 				}
 			}(i)
 		}
 		wg.Wait()
+		wantSel, wantEval := evalOne(fresh2(c.Expr), true), evalOne(fresh2(c.Expr), false)
+		bad := make(chan string, len(seen)+1)
+		for _, o := range seen {
+			want := wantSel
+			if o.what == "evaluate" {
+				want = wantEval
+			}
+			if o.got != want {
+				bad <- o.what + ":" + o.got + "!=" + want
+			}
+		}
 		close(bad)
 		res := "ok"
 		for b := range bad {
